@@ -963,6 +963,12 @@ def build_source(table):
                     w.writerow(['' if r[n] is None else r[n] for n in names])
         res = {'name': table['name'], 'schema': {'fields': copy.deepcopy(fields)}}
         shape = table['pkg_shape']
+        if shape == 'dumped':
+            # a package that an earlier dump of this library wrote (its descriptor carries that dump's counters)
+            from . import boot as boot_
+            with boot_.quiet():
+                lab.df().Flow(lab.source(table['name'], fields, rows), lab.df().dump_to_path(dirn, format='json')).process()
+            return lab.df().load(os_.path.join(dirn, 'datapackage.json'), resources=table['name'])
         if shape == 'inline':
             res['data'] = [dict(r) for r in rows]
         elif shape == 'multipart':
